@@ -23,7 +23,7 @@ IsEv(n) == l <= Len(Rec) /\ E.ev = n /\ l' = l + 1
 LensOK == \A i \in W : Len(deque'[i]) = E.lens[i]
 Stutter == UNCHANGED vars
 
-RunComplete == AllDone /\ (~quitNow => \A n \in Reachable : visited[n] = 1)
+RunComplete == AllDone /\ (~Asked => \A n \in Reachable : visited[n] = 1)
 
 \* the next run starts: the previous one must have terminated cleanly
 TReset ==
